@@ -19,6 +19,7 @@ structure StrOps (α : Type) where
   truthy : α → Bool             -- bool(s): s != ""
   empty : α                     -- ""
   unspecified : α               -- saml.NAME_FORMAT_UNSPECIFIED
+  defaultFormat : α             -- saml.NAME_FORMAT_URI: `saml.Attribute()`'s default NameFormat
   eptidOid : α                  -- the literal tested in `to_`
   eptidLocal : α                -- the literal tested in `ava_from`
   persistent : α                -- saml.NAMEID_FORMAT_PERSISTENT
@@ -168,8 +169,9 @@ def doAva (ops : StrOps α) : LVals α → Res (Option (List (WireValue α)))
     | .raised => .raised
     | .ok w => .ok (some [w])
 
+/-- `saml.AttributeValue(extension_elements=[NameID])`: the text of a fresh AttributeValue is "". -/
 def eptidValue (ops : StrOps α) (v : LVal α) : WireValue α :=
-  { text := none, ext := [{ format := some ops.persistent, text := v }] }
+  { text := some ops.empty, ext := [{ format := some ops.persistent, text := v }] }
 
 /-- `to_eptid_value` (string / scalar items; dictionary items are not modelled). -/
 def eptidValues (ops : StrOps α) : LVals α → List (WireValue α)
@@ -188,7 +190,7 @@ def toWire1 (ops : StrOps α) (c : Conv α) (e : α × LVals α) : Res (WireAttr
   | none =>
     match doAva ops e.2 with
     | .raised => .raised
-    | .ok vs => .ok ⟨some e.1, none, none, vs⟩
+    | .ok vs => .ok ⟨some e.1, some ops.defaultFormat, none, vs⟩   -- saml.Attribute(name=key): default NameFormat
 
 /-- `AttributeConverter.to_`. -/
 def toWire (ops : StrOps α) (c : Conv α) : List (α × LVals α) → Res (List (WireAttr α))
@@ -206,6 +208,11 @@ def fromLocal (ops : StrOps α) (acs : List (Conv α)) (ava : List (α × LVals 
   (acs.find? (fun c => c.nameFormat = nf)).map (fun c => toWire ops c ava)
 
 /-! ### receipt -/
+
+/-- What parsing does to an attribute that went over the wire as XML
+    (`AttributeType_.harvest_element_tree`): a missing NameFormat reads as `unspecified`. -/
+def parsed (ops : StrOps α) (a : WireAttr α) : WireAttr α :=
+  { a with nameFormat := some (a.nameFormat.getD ops.unspecified) }
 
 /-- A value as it appears in the local dictionary. -/
 inductive RVal (α : Type) where
@@ -306,12 +313,6 @@ inductive Effect (α : Type) where
   | raised
 deriving Repr, DecidableEq
 
-def effectOfStep : Step (α × List (RVal α)) → Effect α
-  | .ok (k, v) => .put k v
-  | .keyError => .raised           -- only reachable from the call inside `except KeyError:`
-  | .attrError => .skip
-  | .raised => .raised
-
 /-- One iteration of the loop of `list_to_local`. -/
 def localStep (ops : StrOps α) (acs : List (Conv α)) (allow : Bool) (a : WireAttr α) : Effect α :=
   if acs.isEmpty then
@@ -378,5 +379,15 @@ def roundTrip (ops : StrOps α) (acs : List (Conv α)) (s : Sender α) (allow : 
     match toWire ops c ava with
     | .raised => some .raised
     | .ok w => some (listToLocal ops acs allow w)
+
+/-- The same with the attributes serialised and parsed in between. -/
+def roundTripXml (ops : StrOps α) (acs : List (Conv α)) (s : Sender α) (allow : Bool)
+    (ava : List (α × LVals α)) : Option (Res (Dict α (List (RVal α)))) :=
+  match sender acs s with
+  | none => none
+  | some c =>
+    match toWire ops c ava with
+    | .raised => some .raised
+    | .ok w => some (listToLocal ops acs allow (w.map (parsed ops)))
 
 end AttrConv
